@@ -484,7 +484,7 @@ class AuthSuccessMessage(_MessageType):
 
     @classmethod
     def recv_body(cls, f, *args):
-        return cls(read_longstring(f))
+        return cls(read_binary_longstring(f))
 
 
 class OptionsMessage(_MessageType):
